@@ -726,11 +726,12 @@ pub fn run(args: &Args, sh: &mut Shard) {
     let n = args.scaled(if args.thorough() { 6_000_000 } else { 400_000 });
     let mut case = args.shard;
     while case < n {
+        crate::rng::reset_case_fp();
         let vs = one_case(case, args.seed, sh);
         sh.evaluations += 1;
+        // distinct by content: fingerprint of every generated value (configuration space + operations)
         let mut h = Hash64::new();
-        h.u64(case);
-        h.u64(args.seed);
+        h.u64(crate::rng::take_case_fp());
         sh.nontrivial.insert(h.finish());
         if sh.want_sample() && case < 48 {
             let mut rng = Rng::derive(args.seed, 0xC11, case, 0);
